@@ -94,7 +94,10 @@ class Resolver:
                 return UNK
             if head == "Callable":
                 # Callable[<params>, R]: calling it yields R
-                return ("callable", self.anno(module, args[1])) if len(args) == 2 else UNK
+                if len(args) == 2:
+                    pts = [self.anno(module, x) for x in args[0].elts] if isinstance(args[0], ast.List) else None
+                    return ("callable", self.anno(module, args[1]), pts)
+                return UNK
             return UNK
         return UNK
 
@@ -141,6 +144,9 @@ class Resolver:
                 env[p.arg] = self.anno(fi.module, p.annotation)
         for k, v in (overrides or {}).items():
             if k in env:
+                env[k] = v
+        for k, v in (getattr(fi, "lambda_ptypes", None) or {}).items():
+            if k in env and env[k] == UNK:
                 env[k] = v
         if isinstance(node, ast.Lambda):
             return env
@@ -229,6 +235,15 @@ class Resolver:
         if isinstance(e, ast.Name):
             if e.id in env:
                 return env[e.id]
+            # a nested function / lambda reads the locals of the function it was written in
+            par = getattr(fi, "parent", None)
+            hops = 0
+            while par and par in self.m.functions and hops < 4:
+                penv = self.env(self.m.functions[par])
+                if e.id in penv:
+                    return penv[e.id]
+                par = getattr(self.m.functions[par], "parent", None)
+                hops += 1
             q = self.m.resolve_name(fi.module, e.id)
             if q in self.m.classes:
                 return ("type", q)
@@ -527,6 +542,21 @@ class Resolver:
             if q in self.m.classes:
                 return ("inst", q)
         return UNK
+
+    def lambda_info(self, fi: FuncInfo, lam: ast.Lambda, ptypes: Optional[List[tuple]] = None) -> FuncInfo:
+        """FuncInfo of a lambda written inside fi (registered once), with parameter types taken from the Callable annotation of the
+        parameter it is passed for."""
+        q = f"{fi.qualname}.<lambda>@{getattr(lam, 'lineno', 0)}:{getattr(lam, 'col_offset', 0)}"
+        if q not in self.m.functions:
+            li = FuncInfo(q, "<lambda>", fi.module, None, lam, [])
+            li.parent = fi.qualname
+            self.m.functions[q] = li
+        li = self.m.functions[q]
+        if ptypes:
+            names = [a.arg for a in lam.args.args]
+            li.lambda_ptypes = {n: t for n, t in zip(names, ptypes) if t != UNK}
+            self._env_cache.pop(q, None)
+        return li
 
     def returned_method(self, fn: FuncInfo) -> Optional[tuple]:
         """A selector function annotated `-> Callable[...]` whose every return is the same-named method of classes in one
